@@ -84,27 +84,27 @@ Notation L := L_g_headers.
 Notation R := (ires L nat sl).
 
 Definition core (l : L) :=
-  (g_headers_v_arr l, g_headers_v_num_headers l, g_headers_v_result l, g_headers_v_iter l).
+  (g_headers_v_arr l, g_headers_v_num_headers l, g_headers_m1 l, g_headers_v_iter l).
 
 Ltac hdr_unfold :=
   cbv beta iota delta [irun ifun ibind iret ilift iget iset ipart ifail ifault ithrow iguard iguard_idx ireturn
                        bind ret fail part fault_ expect next next_opt peek peek_n peek_ahead advance bump
                        slice slice_skip pos remaining commit apos rest pre tokrev
-                       g_headers_v_arr g_headers_v_num_headers g_headers_v_result g_headers_v_iter
-                       g_headers_v_b g_headers_v_b_1 g_headers_v_b_2 g_headers_v_b_3 g_headers_v_b_4 g_headers_v_b_5
-                       set_g_headers_v_arr set_g_headers_v_num_headers set_g_headers_v_result set_g_headers_v_iter
-                       set_g_headers_v_b set_g_headers_v_b_1 set_g_headers_v_b_2 set_g_headers_v_b_3
-                       set_g_headers_v_b_4 set_g_headers_v_b_5
+                       g_headers_v_arr g_headers_v_num_headers g_headers_m1 g_headers_v_iter
+                       g_headers_m2 g_headers_m3 g_headers_m4 g_headers_m5 g_headers_m6 g_headers_m7
+                       set_g_headers_v_arr set_g_headers_v_num_headers set_g_headers_m1 set_g_headers_v_iter
+                       set_g_headers_m2 set_g_headers_m3 set_g_headers_m4 set_g_headers_m5
+                       set_g_headers_m6 set_g_headers_m7
                        is is_ws CR LF SP HT COLON].
 Ltac hdr_unfold_in H :=
   cbv beta iota delta [irun ifun ibind iret ilift iget iset ipart ifail ifault ithrow iguard iguard_idx ireturn
                        bind ret fail part fault_ expect next next_opt peek peek_n peek_ahead advance bump
                        slice slice_skip pos remaining commit apos rest pre tokrev
-                       g_headers_v_arr g_headers_v_num_headers g_headers_v_result g_headers_v_iter
-                       g_headers_v_b g_headers_v_b_1 g_headers_v_b_2 g_headers_v_b_3 g_headers_v_b_4 g_headers_v_b_5
-                       set_g_headers_v_arr set_g_headers_v_num_headers set_g_headers_v_result set_g_headers_v_iter
-                       set_g_headers_v_b set_g_headers_v_b_1 set_g_headers_v_b_2 set_g_headers_v_b_3
-                       set_g_headers_v_b_4 set_g_headers_v_b_5
+                       g_headers_v_arr g_headers_v_num_headers g_headers_m1 g_headers_v_iter
+                       g_headers_m2 g_headers_m3 g_headers_m4 g_headers_m5 g_headers_m6 g_headers_m7
+                       set_g_headers_v_arr set_g_headers_v_num_headers set_g_headers_m1 set_g_headers_v_iter
+                       set_g_headers_m2 set_g_headers_m3 set_g_headers_m4 set_g_headers_m5
+                       set_g_headers_m6 set_g_headers_m7
                        is is_ws CR LF SP HT COLON] in H.
 
 (* outcome of a fragment of generated code against an outcome of the model: `ok` says which
@@ -151,7 +151,7 @@ Ltac after_skip Hs :=
 
 Definition fin1 (r : R sl) : status * nat * list slot :=
   match r with
-  | IDone _ l _ => (st_of (g_headers_v_result l), g_headers_v_num_headers l, g_headers_v_arr l)
+  | IDone _ l _ => (st_of (g_headers_m1 l), g_headers_v_num_headers l, g_headers_v_arr l)
   | IPart l => (Partial, g_headers_v_num_headers l, g_headers_v_arr l)
   | IFail e l => (Error e, g_headers_v_num_headers l, g_headers_v_arr l)
   | IFault f l => (Faulted f, g_headers_v_num_headers l, g_headers_v_arr l)
@@ -164,7 +164,7 @@ Hypothesis fwd_value : forall f, mono (s_value E f).
 
 Ltac norm_l l Hc :=
   destruct l as [arr' nh' res' it' ?w ?w ?w ?w ?w ?w]; unfold core in Hc;
-  cbn [g_headers_v_arr g_headers_v_num_headers g_headers_v_result g_headers_v_iter] in Hc;
+  cbn [g_headers_v_arr g_headers_v_num_headers g_headers_m1 g_headers_v_iter] in Hc;
   injection Hc as -> -> -> ->.
 
 (* the value part of one header line: 'value loop, slot iterator, trailing trim, slot write *)
@@ -222,20 +222,20 @@ Proof.
   match goal with |- context [iloop fuel 11 ?body] => set (B11 := body) end.
   assert (H3 : forall f b l0 c,
     sim (core l0) (fun _ c' r => exists l', r = IDone (Ext []) l' c' /\ core l' = core l0)
-        (iloop f 3 B3 (set_g_headers_v_b b l0) c) (skip_invalid_line f b HeaderName c)).
-  { skip_line_loop B3 set_g_headers_v_b. }
+        (iloop f 3 B3 (set_g_headers_m2 b l0) c) (skip_invalid_line f b HeaderName c)).
+  { skip_line_loop B3 set_g_headers_m2. }
   assert (H6 : forall f b l0 c,
     sim (core l0) (fun _ c' r => exists l', r = IDone (Ext []) l' c' /\ core l' = core l0)
-        (iloop f 6 B6 (set_g_headers_v_b_2 b l0) c) (skip_invalid_line f b HeaderName c)).
-  { skip_line_loop B6 set_g_headers_v_b_2. }
+        (iloop f 6 B6 (set_g_headers_m4 b l0) c) (skip_invalid_line f b HeaderName c)).
+  { skip_line_loop B6 set_g_headers_m4. }
   assert (H9 : forall f b l0 c,
     sim (core l0) (fun _ c' r => exists l', r = IDone (Ext []) l' c' /\ core l' = core l0)
-        (iloop f 9 B9 (set_g_headers_v_b_4 b l0) c) (skip_invalid_line f b HeaderValue c)).
-  { skip_line_loop B9 set_g_headers_v_b_4. }
+        (iloop f 9 B9 (set_g_headers_m6 b l0) c) (skip_invalid_line f b HeaderValue c)).
+  { skip_line_loop B9 set_g_headers_m6. }
   assert (H11 : forall f b l0 c,
     sim (core l0) (fun _ c' r => exists l', r = IDone (Ext []) l' c' /\ core l' = core l0)
-        (iloop f 11 B11 (set_g_headers_v_b_5 b l0) c) (skip_invalid_line f b HeaderValue c)).
-  { skip_line_loop B11 set_g_headers_v_b_5. }
+        (iloop f 11 B11 (set_g_headers_m7 b l0) c) (skip_invalid_line f b HeaderValue c)).
+  { skip_line_loop B11 set_g_headers_m7. }
   assert (H2 : forall f l c,
     iloop f 2 B2 l c = match skip_ws_peek f c with
                        | Done _ c' => IDone (Ext []) l c' | Part => IPart l
@@ -387,7 +387,7 @@ Proof.
                (fun o c' r => match o with
                               | None => exists l', r = IExc (Brk 4 (Sub p1 (rev' t1))) l' c' /\ core l' = (a, n, rs, it5)
                               | Some b' => exists l', r = IDone (Ext []) l' c' /\ core l' = (a, n, rs, it5)
-                                                      /\ g_headers_v_b_1 l' = b'
+                                                      /\ g_headers_m3 l' = b'
                               end)
                (iloop f5 5 B5 (mkL_g_headers a n rs it5 v0 bb v2 v3 v4 v5) c) (after_name_ws f5 bb c)).
          { intros f5; induction f5 as [|f5 IH5]; intros bb a n rs it5 v0 v2 v3 v4 v5 [p5 t5 r5].
@@ -406,7 +406,7 @@ Proof.
          + destruct Hs5 as (l2 & Hs5 & Hc2 & Hb). rewrite Hs5. hdr_unfold.
            apply mono_after_name_ws in Ean. destruct Ean as [Ean _]. unfold apos in Ean. cbn [tokrev pre length] in Ean.
            destruct l2 as [arr' nh' res' it' ?w ?w ?w ?w ?w ?w]. unfold core in Hc2.
-           cbn [g_headers_v_arr g_headers_v_num_headers g_headers_v_result g_headers_v_iter g_headers_v_b_1] in Hc2, Hb.
+           cbn [g_headers_v_arr g_headers_v_num_headers g_headers_m1 g_headers_v_iter g_headers_m3] in Hc2, Hb.
            injection Hc2 as -> -> -> ->. subst. hdr_unfold.
            invalid_part IH H6 bad.
          + destruct Hs5 as (l2 & Hs5 & Hc2). rewrite Hs5. hdr_unfold. cbn [Nat.eqb].
